@@ -171,6 +171,11 @@ func (g *gen) declStmt() Stmt {
 			// finding C04-8 (MSL): the vector type of a typed let bound to a splat constructor is not resolved
 			v.NoType = true
 		}
+		if vr, ok := v.Init.(*VarRef); ok && vr.V.Kind == VLet && t.K != TScalar && g.f.off("let.alias-of-let") {
+			// finding C04-10: `let b = a;` (a a let of a composite) renames a's expression to b; a use of a
+			// that precedes b's declaration is then printed with b's name (MSL: undeclared identifier)
+			v.Kind = VVar
+		}
 		if t.K != TScalar && IsRef(v.Init) && g.f.off("let.ref-snapshot") {
 			// finding C01-14: `let l = v;` of a composite is re-read from v at every later `l.x` / `l[i]`
 			v.Kind = VVar
